@@ -1,3 +1,5 @@
+//go:build !no_c17
+
 package props
 
 import (
